@@ -1,24 +1,28 @@
 import Driver
-/-! Model driver: one operation per line on stdin, one answer per line on stdout. -/
+/-! Model driver: one operation per line on stdin, one answer per line on stdout.
+Modes: (default) model answer · `--spec` · `--prop` (line = op TAB implementation answer) · `--kf`. -/
 open Drv
 
-def dispatch (spec : Bool) (line : String) : String :=
-  match (line.splitOn " ").filter (· ≠ "") with
+def dispatch (mode : Mode) (line : String) : String :=
+  let (op, impl) := match line.splitOn "\t" with
+    | [a, b] => (a, b)
+    | a :: _ => (a, "")
+    | [] => ("", "")
+  match (op.splitOn " ").filter (· ≠ "") with
   | [] => "bad-op"
   | fam :: args =>
-    match fam with
-    | "crc" => execCrc spec args
-    | "crcx" => execCrcX spec args
-    | _ => if spec then "n/a" else "bad-op"
+    match dispatchTable.lookup fam with
+    | some h => h { mode := mode, args := args, impl := impl }
+    | none => if mode == .model then "bad-op" else if mode == .kf then "-" else "n/a"
 
-partial def loop (spec : Bool) (h : IO.FS.Stream) (out : IO.FS.Stream) : IO Unit := do
+partial def loop (mode : Mode) (h : IO.FS.Stream) (out : IO.FS.Stream) : IO Unit := do
   let line ← h.getLine
   if line.isEmpty then return ()
   let line := (line.dropEndWhile fun c => c == '\n' || c == '\r').toString
-  out.putStrLn (dispatch spec line)
-  loop spec h out
+  out.putStrLn (dispatch mode line)
+  loop mode h out
 
 def main (args : List String) : IO Unit := do
-  let stdin ← IO.getStdin
-  let stdout ← IO.getStdout
-  loop (args.contains "--spec") stdin stdout
+  let mode := if args.contains "--spec" then Mode.spec else if args.contains "--prop" then Mode.prop
+    else if args.contains "--kf" then Mode.kf else Mode.model
+  loop mode (← IO.getStdin) (← IO.getStdout)
